@@ -357,7 +357,8 @@ package raft
 //@   ensures gisnum(s) ==> result1 == nil
 
 //@ func findSnapshots params(dir)
-//@   props C09 C10 C19
+// (C12: the label in force after a restart is the one of the NEWEST snapshot; the order here decides which one that is)
+//@   props C09 C10 C12 C19
 //@   modifies sortgen
 //@   ensures [C09.snapshots-exist] result1 == nil ==> forall(k, 0 <= k && k < len(result0) ==> fs[mfile(dir, result0[k])])
 //@   ensures [C09+C19.newest-first] result1 == nil ==> forall(j, k, 0 <= j && j < k && k < len(result0) ==> result0[j] > result0[k])
@@ -583,7 +584,10 @@ package raft
 //@   loop 1 invariant -1 <= rangeindex && rangeindex < len(pool.conns) && ConnsOK(pool) && pool.conns == old(pool.conns)
 
 //@ func (*Raft).release params(r)
+// (C20: the directory lock is held until Serve returns; the teardown of the state loop touches no file)
+//@   props C15 C20
 //@   requires r.storage != nil && PoolsInv(r) && !gsnapHandled
+//@   ensures [C20.teardown-keeps-the-lock] fs == old(fs)
 //@   requires [C15.pool-conns-valid] forall(k, has(r.connPools, k) ==> ConnsOK(r.connPools[k]))
 //@   modifies connPool.conns, r.snapTakenCh, gsnapHandled, task.result, task.greplied, log.Log.gprev, leader.removeLTE
 //@   ensures [C15.pending-snapshot-answered] old(r.snapTakenCh != nil) ==> gsnapHandled && r.snapTakenCh == nil
